@@ -507,6 +507,26 @@ fn main() {
             }
             std::process::exit(if bad > 0 { 1 } else { 0 });
         }
+        "exec-scripts" => {
+            // ndjson of {start, ops} produced from TLC behaviours (spec/MC_ChainSim.tla)
+            let cap: usize = args.get(4).map(|s| s.parse().unwrap()).unwrap_or(500);
+            let mut sink = Sink::new(&PathBuf::from(&args[3]), cap);
+            let text = std::fs::read_to_string(&args[2]).unwrap();
+            let mut n = 0;
+            for line in text.lines().filter(|l| !l.trim().is_empty()) {
+                let script: Value = serde_json::from_str(line).unwrap();
+                sink.begin(&json!({"script": n}));
+                let evs = chain::exec_script(&script);
+                if sink.room() < evs.len() {
+                    sink.rotate();
+                }
+                for e in evs {
+                    sink.emit(&e);
+                }
+                n += 1;
+            }
+            println!("GEN scripts={} events={}", n, sink.finish());
+        }
         "gen-from" => {
             let cap: usize = args.get(5).map(|s| s.parse().unwrap()).unwrap_or(500);
             gen_from(&args[2], &PathBuf::from(&args[3]), &PathBuf::from(&args[4]), cap);
